@@ -119,8 +119,10 @@ def make_pool(pool_seed: int, sizes=("small", "small", "medium", "medium", "larg
                 d, _ = ssb.mutate(d, rng)
             if not any(r["type"] == "COROUTINE" and not r["coro"] for r in d["routines"]):
                 docs.append(d)
-    for name, d in rng.sample(ssb.handbuilt(), 2):
+    hb = ssb.handbuilt()
+    for name, d in rng.sample(hb, 2):
         docs.append(d)
+    docs.append(next(d for n, d in hb if n == "switch_shared_nonadjacent_case_body"))
     # families: same ops / sizes, other jump targets (what a weakly keyed memo would confuse with the original)
     families = []
     for d in list(docs[:2]):
@@ -169,6 +171,15 @@ def make_pool(pool_seed: int, sizes=("small", "small", "medium", "medium", "larg
                 imps.append(text)
         w.vfs.write(alt, macrolib.render_file(lib, main_macros, imps, w.variant_of, True))
         texts.append({"kind": "exps-imports", "src": None, "file": alt, "lookup": w.lookup})
+    # scripts in different directories that reach `common.exps` through a RELATIVE lookup path (resolved against the
+    # directory of each importing file): whatever one compile worked out must not serve the next one
+    for d_, body_ in (("town", "town_op(1);"), ("dungeon", "dungeon_op(2);")):
+        vfs_main = f"/rel/{d_}/main.exps"
+        w.vfs.write(f"/rel/{d_}/lib/common.exps", f"macro common() {{\n    {body_}\n}}\n")
+        w.vfs.write(vfs_main, 'import "common.exps";\ndef 0 {\n    ~common();\n    end;\n}\n')
+        texts.append({"kind": "exps-imports", "src": None, "file": vfs_main, "lookup": ["lib"]})
+    w.vfs.write("/rel/cave/main.exps", 'import "common.exps";\ndef 0 {\n    ~common();\n    end;\n}\n')
+    texts.append({"kind": "exps-imports", "src": None, "file": "/rel/cave/main.exps", "lookup": ["lib"]})
     for t in rng.sample(INVALID_TEXTS, 4):
         texts.append({"kind": "invalid", "src": t, "file": "/proj/SCRIPT/bad.exps"})
     vfs = w.vfs
